@@ -128,6 +128,9 @@ def _ops_random(rng, n_dec_target, drift):
             ops.append("ckpt:load")
         elif r < 0.66:
             ops.append("ckpt:load_checkpoint")
+        elif r < 0.74:
+            # agent.test() / the training loops leave the agent in inference mode: decisions taken then are decisions too
+            ops.append("mode:0" if rng.random() < 0.6 else "mode:1")
         elif not drift and r < 0.95:
             ops.append("mut:" + MUTS[int(rng.integers(len(MUTS)))])
     # every sequence ends with decisions so the last op is checked through the Sherman-Morrison path as well
@@ -140,8 +143,12 @@ def cases(tier, seed):
     rng = np.random.default_rng(19000 + seed)
     out = []
 
-    def mk(algo, obs, lamb, gamma, ops, d=None, arms=None, hidden=None, int_hp=False):
+    def mk(algo, obs, lamb, gamma, ops, d=None, arms=None, hidden=None, int_hp=False, out_act="auto"):
+        if out_act == "auto":
+            # a non-default output activation of the head: the arm features are gradients THROUGH it
+            out_act = [None, None, "Tanh", "Sigmoid", None, "Softplus"][len(out) % 6]
         c = {
+            "out_act": out_act,
             "algo": algo,
             "obs": obs,
             "d": int(d if d is not None else rng.integers(2, 9)),
@@ -175,6 +182,10 @@ def cases(tier, seed):
             mk(algo, obs, 1.0, 1.0, ["act:5:0.3", "learn", "act:5:0.0", "mut:arch", "act:4:0.0", "clone", "act:3:0.0"])
             mk(algo, obs, 2.0, 0.5, ["act:4:0.0", "mut:act", "act:4:0.3", "ckpt:load", "act:3:0.0"])
         mk(algo, "vector", 2.0, 2.0, ["act:6:0.3", "learn", "act:6:0.0", "clone", "act:3:0.0"], int_hp=True)
+        mk(algo, "vector", 1.0, 1.0, ["act:4:0.0", "mode:0", "act:6:0.3", "clone", "act:3:0.0", "mode:1", "act:3:0.0"])
+        mk(algo, "vector", 0.5, 2.0, ["mode:0", "act:5:0.0", "ckpt:load", "act:4:0.3", "learn", "act:3:0.0"])
+        for act in ("Tanh", "Sigmoid"):
+            mk(algo, "vector", 1.0, 1.0, ["act:8:0.3", "learn", "act:8:0.0"], out_act=act)
         # drift: one long uninterrupted recursion per algorithm
         mk(algo, "vector", 1.0, 1.0, ["act:100:0.2", "learn", "act:100:0.0"], d=8, arms=5)
 
@@ -623,7 +634,7 @@ def _make_agent(case, seed):
         net_config = {
             "latent_dim": 16,
             "encoder_config": {"hidden_size": [16], "min_mlp_nodes": 8, "max_mlp_nodes": 64},
-            "head_config": {"hidden_size": [h], "min_mlp_nodes": 8, "max_mlp_nodes": 64, "output_activation": None},
+            "head_config": {"hidden_size": [h], "min_mlp_nodes": 8, "max_mlp_nodes": 64, "output_activation": case.get("out_act")},
         }
     return zoo.algo_cls(case["algo"])(
         osp,
@@ -727,6 +738,11 @@ def _run(case, rec):
                     agent = m.mutation([agent], pre_training_mut=False)[0]
                     rec.hit("mutation_ops")
                     rec.hit("mutation_ops:" + str(agent.mut).split(".")[-1] if op == "mut:arch" else "mutation_ops:" + op[4:])
+                elif kind == "mode":
+                    agent.set_training_mode(op.endswith(":1"))
+                    rec.hit("mode_switches")
+                    if not agent.training:
+                        rec.hit("mode_switches_to_inference")
                 elif op == "clone":
                     parent = agent
                     psh = _shadow(parent)
